@@ -119,9 +119,10 @@ def getcallarg(function, args, kwargs):
     return argspec_defaults(function).get(names[0])
 
 
-def getcallargs(function, *args, **kwargs):
+def getcallargs(function, /, *args, **kwargs):
     """
-    replicates inspect.getcallargs with support to functions within decorators
+    replicates inspect.getcallargs with support to functions within decorators.
+    `function` is positional-only, so that a keyword argument called 'function' belongs to the call being bound.
     
     :Example:
     --------------
@@ -145,6 +146,9 @@ def getcallargs(function, *args, **kwargs):
     >>> assert getcallargs(function, *args, **kwargs) == inspect.getcallargs(function, *args, **kwargs) == dict(a = 1, b = 2)
     >>> args = (1,); kwargs = {'b' : 2}
     >>> assert getcallargs(function, *args, **kwargs) == inspect.getcallargs(function, *args, **kwargs) == dict(a = 1, b = 2)
+
+    >>> f = lambda function, b = 2: function + b
+    >>> assert getcallargs(f, function = 1) == inspect.getcallargs(f, function = 1) == dict(function = 1, b = 2)
     """
     spec = getargspec(function)
     arg_names = [] if spec.args is None else spec.args
